@@ -39,6 +39,7 @@ def main():
         subprocess.run([sys.executable, os.path.join(VERIF, "gen", "ast2coq.py")], capture_output=True)
         subprocess.run([sys.executable, os.path.join(VERIF, "gen", "symkern.py")], capture_output=True)
         subprocess.run([sys.executable, os.path.join(VERIF, "gen", "symops.py")], capture_output=True)
+        subprocess.run([sys.executable, os.path.join(VERIF, "gen", "symops2.py")], capture_output=True)
     return 0
 
 
